@@ -258,6 +258,12 @@ class BlockEval:
                 if sc is not None:
                     self.env[key] = b.xor(sc)
                     return
+                ch = getattr(self, 'select_choice', None)
+                if ch is not None:
+                    if i.id in ch:
+                        self.env[key] = a if ch[i.id] else b
+                        return
+                    raise NeedSplit(i)
                 raise AnalysisBroken('select between values whose difference is not constant at %s' % i.where())
             self.env[key] = self.fresh(i.bits or 64, 'sel:%s' % i.id) if i.ty.get('k') == 'int' else ('ptr', key)
             return
@@ -385,6 +391,13 @@ class ReadOutside(Exception):
     def __init__(self, inst, off, nb):
         Exception.__init__(self, 'read of %d byte(s) at offset %d' % (nb, off))
         self.inst, self.off, self.nb = inst, off, nb
+
+
+class NeedSplit(Exception):
+    """a select whose arms differ by a non-constant amount: the caller evaluates once per outcome of its condition"""
+
+    def __init__(self, inst):
+        self.inst = inst
 
 
 class DataDependentBranch(Exception):
